@@ -4,7 +4,21 @@ COQ_TARGETS = ["Props/Properties_C11.vo", "Extract/ExtractPromise.vo"]
 PROPS_FILES = ["Props/Properties_C11.v"]
 VARIANT = "fixed"
 RUNS = [dict(name="promise", harness="c11", driver="promise", model_ml="promise_model",
-             driver_args=["-variant", VARIANT])]
+             driver_args=["-variant", VARIANT, "-incfile", "build/run/C11-promise/inconclusive.txt"])]
+
+
+def post(res, stats_all, all_mism):
+    # histories whose set of allowed outcomes could not be computed within the exploration budget: they were
+    # checked against the invariants only (see docs/C11.md); the count goes into the evidence
+    import os
+    p = os.path.join(os.path.dirname(os.path.dirname(os.path.abspath(__file__))), "build", "run", "C11-promise",
+                     "inconclusive.txt")
+    n = 0
+    if os.path.exists(p):
+        n = len([l for l in open(p) if l.strip()])
+    for k, s in stats_all.items():
+        if k.endswith("/gen") or k.endswith("/replay"):
+            s["x_inconclusive_explorations"] = n
 EXPLANATION = ("Theorems over all operation lists and all interleavings of the small-step model coq/Promise/Promise.v of "
                "answer.go's Promise (explicit mu, the promise states, ongoingCalls/callsStopped, proxy client table, "
                "clientsRefs, the promised client hooks); the model is tied to the code by running the extracted model and the "
@@ -44,7 +58,7 @@ def violates(run, case, impl, model):
     # delivered twice, or a delivery goes elsewhere than the model's (exactly-once destination).
     return True
 
-LEVEL_TEXT = ("Proved for all op lists and all interleavings of the single-promise model: resolve_once, pipelined_exactly_once, client_idempotent (mu free, same proxy), no_stuck, waiters_released, proxy_clients_resolved_and_released, result_read_alive; on the model with Join (joined chains): exactly-once count part. Refuted on earlier/seeded code variants: F11, resolve deadlock, result lifetime, Join nil table (F11c), seeded C11-3. Model tied to answer.go by synctest histories (sequenced, with Join, and concurrent launch groups checked against the set of outcomes the model allows).")
-LEVEL_NOTE = "Level other: on the joined-chain model only the count part of exactly-once is proved (no_stuck, destinations, proxies are proved for a single promise). Context cancellation not modelled. See docs/C11.md."
+LEVEL_TEXT = ("Proved for all op lists and all interleavings of the single-promise model: resolve_once, pipelined_exactly_once, client_idempotent, no_stuck, waiters_released, proxy_clients_resolved_and_released, result_read_alive; on the model with Join (joined chains, any number of promises): exactly-once count part, mutex discipline (ordered locking, mu free at rest), resolve_once per promise, PipelineCaller only before resolution. Refuted on earlier/seeded code variants: F11, resolve deadlock, result lifetime, Join nil table (F11c), seeded C11-3. Model tied to answer.go by synctest histories (sequenced, with Join, concurrent launch groups checked against the set of outcomes the model allows).")
+LEVEL_NOTE = "Level other: on the joined-chain model no_stuck, waiters, proxies and the second half of the destination property are not proved (they are for a single promise); no relation theorem between the two models. See docs/C11.md for what the chain proofs need."
 TECHNIQUE = "Coq proof over an executable small-step model + extracted-model/implementation differential run under synctest"
 DESIGN_REF = "DESIGN.md section 6, C11"
